@@ -140,7 +140,7 @@ PROPS["C03"] = {
     "technique": "model-based stateful property testing (rapid) with persistent committed readers + concurrent monitor under the race detector + generated catch-up histories of real followers with parked committed readers",
     "level_text": '(a) sequential interleavings with persistent committed readers: append / HW advance (anywhere, exactly on the last message of a segment, exactly on the first) / new reader (any start, beyond the HW, empty log) / read / read-only toggle, each read compared with the model (must deliver exactly the next committed message, or must not deliver anything); (b) real goroutines under the race detector: appender, HW advancer with lag and step, 1-6 readers created mid-run, read-only toggler; every reader checks online that what it gets is committed, consecutive, with the stored content, and reaches the final HW',
     "level_note": 'one appending goroutine per log (as the leader loop / follower handler guarantee); (b) samples schedules, rapid cannot shrink them; negative expectations (must block) are positive-observation checks; operation parkro parks a reader at the HW in a real blocking ReadMessage while the log is switched to read-only: it must stay blocked if uncommitted messages remain and must end otherwise; SetHighWatermark with a lower value must be ignored; the concurrent unit runs two HW movers (as a leader has) and checks that the HW is never observed below a value whose SetHighWatermark call has returned; unit C03c runs on three bare servers sharing a NATS server (the world of C02): the ISR is shrunk to the leader, committed readers are parked on the followers, the leader commits 4-14 messages alone and the followers then catch up in several small fetches (clustering.replication.max.bytes 150-600), each response carrying the leader HW: every message the follower HW covers at the end must have reached its parked reader once and in order',
-    "rule": '(a) rapid draws 2-60 steps over segment sizes {1,64,150,300,1024}; non-trivial = a reader that blocked with the HW resting on the last message of a segment and later crossed into the next segment. (b) rapid draws batch sizes, lag, step, reader creation points and start fractions, toggles, yield pattern, and in a third of the cases a goroutine that runs the cleaner loop's roll check (segment.max.age 20-500 us, wall-clock message timestamps) next to the appender; non-trivial = >=2 readers parked in waitForHW at once and >=1 roll.',
+    "rule": '(a) rapid draws 2-60 steps over segment sizes {1,64,150,300,1024}; non-trivial = a reader that blocked with the HW resting on the last message of a segment and later crossed into the next segment. (b) rapid draws batch sizes, lag, step, reader creation points and start fractions, toggles, yield pattern, and in a third of the cases a goroutine that runs the roll check of the cleaner loop (segment.max.age 20-500 us, wall-clock message timestamps) next to the appender; non-trivial = >=2 readers parked in waitForHW at once and >=1 roll.',
     "assumptions": TRUST,
     "units": [
         {"name": "C03a", "pkg": "server/commitlog", "test": "TestVerifC03a",
